@@ -73,8 +73,9 @@ CLAIMS = {
              "the parser sources (C12) + create_DG of the real code vs DG.create edge by edge with weights; oracle: declarative "
              "Spec.rawEdges vs the implementation's edges, a curated vocabulary of real instructions with architectural roles per status flag "
              "(flag readers cmovcc/sbb/csel/cset/csinc; half of the kernels with flag dependencies), and a "
-             "synthetic ISA database with random roles. The role assignment itself is inside the model (Props/C03Roles, 65 theorems: "
-             "roles_spec, roles_partition, defaults per ISA, zero idiom, write-back, has_load/store_iff, op_*: the translated "
+             "synthetic ISA database with random roles. The role assignment itself is inside the model (Props/C03Roles, 69 theorems: "
+             "roles_spec, roles_partition, defaults per ISA, zero idiom, write-back, has_load/store_iff, reg_changes_post_register "
+             "(a post-index by a register reports the base as unknown and never raises), op_*: the translated "
              "operation mini-programs compute dst = src +/- imm for all immediates), ISA databases and operation strings regenerated "
              "from the YAML, tied per instruction to semantic_operands / flags / get_reg_changes of the real code.",
         design="5/C03", note=COMMON_NOTE + "Modelled not verified: networkx path search (replaced by the model's own enumeration), the parsers and the role assignment (taken from the implementation per kernel: the model consumes the implementation's semantic operands, latencies and register changes). Graph level: edges_iff_raw, create_edges_subset (last emission wins), edges_forward, create_iff_raw (kernels without stores).",
@@ -108,7 +109,7 @@ CLAIMS = {
     "C06": dict(
         text="Theorems about the model of is_memload/_update_reg_changes for all registers, displacements and tracked increments: "
              "same_location_edge, untouched_iff_disp_eq, no_edge_when_disp_differs / regs_differ / unknown / scale_differs / "
-             "base_vs_nobase, store_ends_search (all suffixes), update_add_add; tracks_preserved, tracking_sound and store_load_edge_sound (every store->load emission is address-exact under a concrete register-valuation semantics, for every start valuation and execution). Tie: create_DG on generated store/load kernels of both "
+             "base_vs_nobase, no_edge_after_register_post_index (an access post-indexed by a register leaves its base unknown for good), store_ends_search (all suffixes), update_add_add; tracks_preserved, tracking_sound and store_load_edge_sound (every store->load emission is address-exact under a concrete register-valuation semantics, for every start valuation and execution). Tie: create_DG on generated store/load kernels of both "
              "ISAs vs the model; oracle: the generator's own symbolic bookkeeping (edge iff same location, with the forwarding weight).",
         design="5/C06", note=COMMON_NOTE + "Modelled not verified: networkx path search (replaced by the model's own enumeration), the parsers and the role assignment (taken from the implementation per kernel: the model consumes the implementation's semantic operands, latencies and register changes). Not covered: a load that overwrites its own address register; pre-indexed loads directly aliasing the store.",
         technique="Lean 4 proof (decision logic of the address comparison) + differential correspondence + symbolic oracle",
